@@ -191,3 +191,30 @@ Definition eob s r v h ok loc := {| eo_status := s; eo_rule := r; eo_view := v; 
 Definition fxs f1 f2 f3 f4 f6 f7 f9 := {| fx_F1 := f1; fx_F2 := f2; fx_F3 := f3; fx_F4 := f4; fx_F6 := f6; fx_F7 := f7; fx_F9 := f9 |}.
 Definition cs fx L r ep ct db de d p e :=
   {| k_fx := fx; k_L := L; k_rule := r; k_escpath := ep; k_ct := ct; k_dec_body := db; k_dec_empty := de; k_dec := d; k_prx := p; k_env := e |}.
+
+(* ------------------------------------------------------------------ second stream: the decision service as deployed *)
+
+(** A case: one logical request (method, scheme, host, path, query) sent to a decision service
+    directly and, described by X-Forwarded-Method/-Proto/-Host/-Uri from a trusted proxy, to a decision
+    service with trusted_proxies; both echo method and URL parts through the same rule.
+    [v_corr]: the model ([view_direct], [view_tp]) predicts both echoes; [v_prop]: the two echoes are
+    equal; guard 10 = C13-F10 (the query is not its own re-encoding). *)
+Record tobs := { to_status : Z; to_parts : string * string * string * string * string }.
+Record tcase := { t_L : lreq; t_direct : tobs; t_tp : tobs }.
+
+Definition parts_eqb (a b : string * string * string * string * string) : bool :=
+  let '(a1, a2, a3, a4, a5) := a in let '(b1, b2, b3, b4, b5) := b in
+  String.eqb a1 b1 && String.eqb a2 b2 && String.eqb a3 b3 && String.eqb a4 b4 && String.eqb a5 b5.
+
+Definition tobs_eqb (a b : tobs) : bool := Z.eqb (to_status a) (to_status b) && parts_eqb (to_parts a) (to_parts b).
+
+Definition check_tp (c : tcase) : verdict :=
+  let L := t_L c in
+  {| v_corr := wf_lreqb L && nonempty (l_method L) &&
+               tobs_eqb {| to_status := 0; to_parts := url_parts (view_direct L) |} (t_direct c) &&
+               tobs_eqb {| to_status := 0; to_parts := url_parts (view_tp L) |} (t_tp c);
+     v_prop := tobs_eqb (t_direct c) (t_tp c);
+     v_guards := guards [(10%Z, g_F10 L)] |}.
+
+Definition tob s m sc h rp q := {| to_status := s; to_parts := (m, sc, h, rp, q) |}.
+Definition tcs L d t := {| t_L := L; t_direct := d; t_tp := t |}.
